@@ -35,7 +35,7 @@ def main():
     if cmd == 'lits':
         from analysis.panics import stable_lit
         want = sys.argv[3]
-        for o in sites:
+        for o in [o for o in ctx.r.obls if '|' in o.key]:
             if o.loc.endswith(want) or want in o.loc:
                 fn = o.key.split('|')[0]
                 b = ctx.db.body(fn)
